@@ -482,8 +482,12 @@ def _empty_work(case):
                         bad = judge(expected, got, ex, raw, 0, itemsize, 0, d, decoder)
                         if bad:
                             if len(mism) < 80:
-                                mism.append(dict(key='empty|%s|%s|mode:%s|%s|%s' % (bad, 'len0' if n == 0 else 'len1', M.mode_of(prefix), dt_class(d),
-                                                                                   'same-itemsize' if itemsize == dsize else 'other-itemsize'),
+                                # same key shape as the main format families (so a known format-code finding keeps its key);
+                                # '|len0' marks divergences that only a zero-length buffer shows
+                                key = fmt_key(path, bad, prefix, seq, 0, d) + ('|len0' if n == 0 and bad != 'false-reject' else '')
+                                if n == 0 and bad == 'false-accept':
+                                    key = 'zero-length|false-accept|%s|%s' % (dt_class(d), 'same-itemsize' if itemsize == dsize else 'other-itemsize')
+                                mism.append(dict(key=key,
                                                  what='%s%s <- Exporter(format %r, itemsize %d, shape %r): model says %s, got %s' % (
                                                      M.DTYPES[d][0], '[:]' if nd == 1 else '[:, :]', text, itemsize, shape, expected, _short(got)),
                                                  kind='empty', fmt=text, dtype=d, itemsize=itemsize, shape=list(shape), expected=expected))
@@ -519,7 +523,7 @@ def _empty_work(case):
                 elif len(got[1]) != n:
                     bad = 'values'
                 if bad:
-                    mism.append(dict(key='empty-real|%s|%s|%s|%s' % (bad, 'len0' if n == 0 else 'len1', dt_class(d), desc.split()[0]),
+                    mism.append(dict(key='%s|%s|%s|%s' % ('zero-length-real' if n == 0 else 'one-element-real', bad, dt_class(d), desc.split()[0]),
                                      what='%s%s <- %s (format %r, itemsize %d): model says %s, got %s' % (
                                          M.DTYPES[d][0], '[:]' if nd == 1 else '[:, :]', desc, fmt, mv.itemsize, expected, _short(got)),
                                      kind='empty-real', expr=expr, dtype=d, expected=expected, nd=nd, n=n))
